@@ -399,4 +399,13 @@ func main() {
 
 	// ---- SourceLRU.v
 	writeIfChanged(filepath.Join(outDir, "SourceLRU.v"), lruSummary(cacheF))
+
+	// ---- SourceFns.v: selected functions as MiniGo syntax trees
+	commonF := parseFile(filepath.Join(repo, "valid/common.go"))
+	fnF := parseFile(filepath.Join(repo, "valid/validfn.go"))
+	writeIfChanged(filepath.Join(outDir, "SourceFns.v"), miniGo(
+		map[string]*ast.File{"valid/common.go": commonF, "valid/cache.go": cacheF, "valid/validfn.go": fnF},
+		[][2]string{{"valid/common.go", "validInputSize"}, {"valid/validfn.go", "eq"},
+			{"valid/cache.go", "LRUCache_Store"}, {"valid/cache.go", "LRUCache_Load"}, {"valid/cache.go", "LRUCache_Delete"},
+			{"valid/cache.go", "LRUCache_delete"}, {"valid/cache.go", "LRUCache_Len"}}))
 }
